@@ -147,7 +147,7 @@ func actAkaMac(e *Env, a J) J {
 }
 
 func actAkaPrf(e *Env, a J) J {
-	kEncr, kAut, kRe, msk, emsk, err := eap.EapAkaPrimePRF(nilIfEmpty(gox(a, "ik")), nilIfEmpty(gox(a, "ck")), string(gox(a, "identity")))
+	kEncr, kAut, kRe, msk, emsk, err := eap.EapAkaPrimePRF([]byte(gox(a, "ik")), []byte(gox(a, "ck")), string(gox(a, "identity")))
 	o := errObs(err)
 	o["haskeys"] = kEncr != nil || kAut != nil || kRe != nil || msk != nil || emsk != nil
 	if err == nil {
